@@ -31,6 +31,7 @@ Section PvalInd.
   Hypothesis HInt : forall z, P (PInt z).
   Hypothesis HNat : forall z, P (PNat z).
   Hypothesis HStr : forall s, P (PStr s).
+  Hypothesis HBytes : forall s, P (PBytes s).
   Hypothesis HBool : forall b, P (PBool b).
   Hypothesis HUnit : P PUnit.
   Hypothesis HPair : forall a b, P a -> P b -> P (PPair a b).
@@ -45,6 +46,7 @@ Section PvalInd.
     | PInt z => HInt z
     | PNat z => HNat z
     | PStr s => HStr s
+    | PBytes s => HBytes s
     | PBool b => HBool b
     | PUnit => HUnit
     | PPair a b => HPair a b (pval_ind' a) (pval_ind' b)
@@ -65,6 +67,7 @@ Section DataInd.
   Variable P : data -> Prop.
   Hypothesis HInt : forall z, P (DInt z).
   Hypothesis HStr : forall s, P (DStr s).
+  Hypothesis HBytes : forall s, P (DBytes s).
   Hypothesis HBool : forall b, P (DBool b).
   Hypothesis HUnit : P DUnit.
   Hypothesis HPair : forall a b, P a -> P b -> P (DPair a b).
@@ -78,6 +81,7 @@ Section DataInd.
     match v with
     | DInt z => HInt z
     | DStr s => HStr s
+    | DBytes s => HBytes s
     | DBool b => HBool b
     | DUnit => HUnit
     | DPair a b => HPair a b (data_ind' a) (data_ind' b)
@@ -100,7 +104,7 @@ Definition typed (v : pval) (t : ty) : Prop := pv_typedb v t = true.
 Lemma typed_rt_type v : forall t, typed v t -> rt_type v = t.
 Proof.
   unfold typed.
-  induction v as [z|z|s|b| |x y IHx IHy|t0|x IHx|x t0 IHx|t0 x IHx|t0 l IHl] using pval_ind';
+  induction v as [z|z|s|s|b| |x y IHx IHy|t0|x IHx|x t0 IHx|t0 x IHx|t0 l IHl] using pval_ind';
     intros [] Ht; simpl in Ht; try discriminate; simpl; try reflexivity.
   - apply andb_prop in Ht as [H1 H2]. f_equal; auto.
   - apply ty_eqb_eq in Ht. congruence.
@@ -128,6 +132,8 @@ Proof. destruct v; unfold typed; simpl; try discriminate; eauto. Qed.
 Lemma typed_nat_inv v : typed v TNat -> exists z, v = PNat z /\ (0 <= z)%Z.
 Proof. destruct v; unfold typed; simpl; try discriminate. intros H. apply Z.leb_le in H. eauto. Qed.
 Lemma typed_string_inv v : typed v TString -> exists s, v = PStr s.
+Proof. destruct v; unfold typed; simpl; try discriminate; eauto. Qed.
+Lemma typed_bytes_inv v : typed v TBytes -> exists s, v = PBytes s.
 Proof. destruct v; unfold typed; simpl; try discriminate; eauto. Qed.
 Lemma typed_bool_inv v : typed v TBool -> exists b, v = PBool b.
 Proof. destruct v; unfold typed; simpl; try discriminate; eauto. Qed.
@@ -160,11 +166,12 @@ Lemma py_of_data_typed d : forall t, data_has_type t d = true ->
   exists v, py_of_data t d = Some v /\ typed v t /\ erase v = value_of_data d.
 Proof.
   unfold typed.
-  induction d as [z|s|b| |x y IHx IHy| |x IHx|x IHx|x IHx|l IHl] using data_ind';
+  induction d as [z|s|s|b| |x y IHx IHy| |x IHx|x IHx|x IHx|l IHl] using data_ind';
     intros [] Ht; simpl in Ht; try discriminate; simpl.
   - eexists; repeat split.
   - apply Z.leb_le in Ht. destruct (z <? 0)%Z eqn:E; [apply Z.ltb_lt in E; lia|].
     eexists; repeat split. simpl. apply Z.leb_le. assumption.
+  - eexists; repeat split.
   - eexists; repeat split.
   - eexists; repeat split.
   - eexists; repeat split.
